@@ -16,6 +16,10 @@ def main():
     rng = random.Random(a.seed * 1000003 + 8)
     thorough = a.tier == "thorough"
     em = drvlib.Emitter(a.out, "crc", tables=False)
+    if a.prop != "C08":
+        # run on behalf of a property that rests on the checksum helpers (framing, validation, serialisation): say so in what is reported
+        _v = em.violation
+        em.violation = lambda desc, inp, detail, key=None: _v("%s (through the checksum helpers it rests on): %s" % (a.prop, desc), inp, detail, key)
     tabs = gen.Tabs()
 
     msgs = []
@@ -40,6 +44,20 @@ def main():
         msgs.append(("frame", f))
         msgs.append(("frame-nocrc", f[:-3]))
 
+    # every 1-byte and every 2-byte message (direct only): whatever table a byte-wise / pair-wise implementation indexes, from a zero
+    # register these reach each of its entries; plus 3-byte messages sampled
+    for v in list(range(256)) + list(range(256, 65536 + 256)) + [None] * (20000 if thorough else 4000):
+        m = bytes([v]) if v is not None and v < 256 else (v - 256).to_bytes(2, "big") if v is not None else bytes(rng.getrandbits(8) for _ in range(3))
+        em.direct_evaluations += 1
+        try:
+            c = calc_crc24q(m)
+        except Exception as e:  # noqa
+            em.violation("crc helper raised %r" % e, {"message": m.hex()}, repr(e))
+            break
+        if c != gen.crc24q_ref(m):
+            em.violation("calc_crc24q differs from the CRC-24Q remainder", {"message": m.hex()}, {"impl": c, "reference": gen.crc24q_ref(m)})
+            break
+    em.count("exhaustive.1_and_2_byte_messages", 65792)
     for kind, m in msgs:
         em.count("kind." + kind)
         em.count("len.%s" % ("0" if not m else "1-40" if len(m) <= 40 else "41-300" if len(m) <= 300 else ">300"))
@@ -100,7 +118,9 @@ def main():
         return bytes(b)
 
     ndet = 0
-    for fi, f in enumerate(frames[: (12 if thorough else 5)]):
+    # the shortest frames first (payloads of 0, 1 and 2 bytes: "for every frame length"), then frames of defined types
+    shortest = [gen.frame(b""), gen.frame(b"\x3e"), gen.frame(b"\x00"), gen.frame(bytes([0x3e, 0xd0])), gen.frame(bytes([0xfe, 0xc0, 0x2a]))]
+    for fi, f in enumerate(shortest + frames[: (12 if thorough else 5)]):
         nb = len(f) * 8
         ok0 = True
         try:
